@@ -6,7 +6,10 @@ package g07
 import (
 	"encoding/json"
 	"fmt"
+	"os"
+	"runtime/debug"
 	"sort"
+	"strconv"
 	"sync"
 	"time"
 
@@ -30,6 +33,11 @@ var knownText = map[string]string{
 
 func run(c *core.Ctx) {
 	clientreplay.Quiet()
+	// A socket the real code forgets to close is closed by the finalizer of its net.Conn at
+	// the next garbage collection, which would hide exactly the leaks this check looks for:
+	// no collection while the replay runs (unless the heap passes 16 GiB).
+	defer debug.SetGCPercent(debug.SetGCPercent(-1))
+	defer debug.SetMemoryLimit(debug.SetMemoryLimit(16 << 30))
 	c.Assume("timing: a call that the model says returns at once, or on the cancellation / deadline of its context, is classed \"fast\" if it returns before 90% of ClientConfig.Timeout (0.7 s for a live context, 2.5 s otherwise; the context is cancelled 0.1 s into the call), \"timeout\" otherwise; what the peer must see (EOF of a closed socket) is waited for up to 2 s, what must not happen is looked for during 30-60 ms; a difference is re-run once with 3 s / 12 s / 10 s / 200 ms before it is reported")
 	c.Assume("the scripted peer is a loopback port whose listening socket is replaced between calls: bound but not listening (refused), listen backlog 0 with a full accept queue (the dial stalls), accepting and then FIN / silent / non-CEDAR bytes / cedar's own server package with a matching policy (NEVER or CLAIMTOBE+AES) / with a policy the client cannot meet; it half-closes instead of closing so that it can see the client's EOF")
 	c.Assume("CCB route: only the failing environments (no broker is scripted here; the CCB exchange itself is C14/G01); ConnectAndAuthenticate's retry after a failed session resumption is not exercised")
@@ -80,19 +88,43 @@ func run(c *core.Ctx) {
 	var st clientreplay.Stats
 	rng := c.Rand("g07")
 
-	// the tables are small: generate them first and replay them while TLC does the rest
-	wg.Add(1)
-	gen("Gen_G07_tables.cfg", func(raws []jsonRaw) (err error) { ka, rt, err = clientreplay.ParseRows(raws); return })
-	if c.IsBroken() {
-		wg.Wait()
-		return
-	}
-	if len(ka) != 55 || len(rt) != 18 {
-		c.Broken("G07: expected 55 keep-alive and 18 routing rows, got %d and %d", len(ka), len(rt))
-		wg.Wait()
-		return
-	}
-	wg.Add(2)
+	// the tables are small: their rows are replayed as soon as they are generated, while TLC does the rest
+	wg.Add(4) // three generators and the replay of the table rows
+	var tTables time.Duration
+	go func() {
+		defer wg.Done()
+		gen("Gen_G07_tables.cfg", func(raws []jsonRaw) (err error) { ka, rt, err = clientreplay.ParseRows(raws); return })
+		if c.IsBroken() || c.Replay != "" {
+			return
+		}
+		if len(ka) != 55 || len(rt) != 18 {
+			c.Broken("G07: expected 55 keep-alive and 18 routing rows, got %d and %d", len(ka), len(rt))
+			return
+		}
+		var kaJobs []clientreplay.KAJob
+		reps := 1
+		if thorough {
+			reps = 4
+		}
+		trng := c.Rand("g07-tables")
+		for _, row := range ka {
+			for _, p := range clientreplay.KAPaths {
+				for k := 0; k < reps; k++ {
+					kaJobs = append(kaJobs, clientreplay.KAJob{Row: row, Path: p, Salt: trng.Intn(1 << 16)})
+				}
+			}
+		}
+		var rtJobs []clientreplay.RouteJob
+		for _, row := range rt {
+			for k := 0; k < 3*reps; k++ {
+				rtJobs = append(rtJobs, clientreplay.RouteJob{Row: row, Salt: trng.Intn(1 << 16)})
+			}
+		}
+		core.ParallelFor(len(kaJobs), 16, func(i int) { clientreplay.RunKAJob(c, kaJobs[i], &st) })
+		core.ParallelFor(len(rtJobs), 16, func(i int) { clientreplay.RunRouteJob(c, rtJobs[i], &st) })
+		c.Sample(map[string]any{"keepalive_row": ka[len(ka)/2], "routing_row": rt[len(rt)/2]})
+		tTables = time.Since(t0)
+	}()
 	go gen(genC, func(raws []jsonRaw) (err error) {
 		ct, err = clientreplay.BuildCTable(raws)
 		if len(raws) > 0 {
@@ -107,31 +139,6 @@ func run(c *core.Ctx) {
 		}
 		return
 	})
-
-	if c.Replay == "" {
-		var kaJobs []clientreplay.KAJob
-		reps := 1
-		if thorough {
-			reps = 4
-		}
-		for _, row := range ka {
-			for _, p := range clientreplay.KAPaths {
-				for k := 0; k < reps; k++ {
-					kaJobs = append(kaJobs, clientreplay.KAJob{Row: row, Path: p, Salt: rng.Intn(1 << 16)})
-				}
-			}
-		}
-		var rtJobs []clientreplay.RouteJob
-		for _, row := range rt {
-			for k := 0; k < 3*reps; k++ {
-				rtJobs = append(rtJobs, clientreplay.RouteJob{Row: row, Salt: rng.Intn(1 << 16)})
-			}
-		}
-		core.ParallelFor(len(kaJobs), 16, func(i int) { clientreplay.RunKAJob(c, kaJobs[i], &st) })
-		core.ParallelFor(len(rtJobs), 16, func(i int) { clientreplay.RunRouteJob(c, rtJobs[i], &st) })
-		c.Sample(map[string]any{"keepalive_row": ka[len(ka)/2], "routing_row": rt[len(rt)/2]})
-	}
-	tTables := time.Since(t0)
 	wg.Wait()
 	tTLC := time.Since(t0)
 	if c.IsBroken() || ct == nil || stt == nil {
@@ -156,7 +163,10 @@ func run(c *core.Ctx) {
 		}
 		rng.Shuffle(len(rest), func(i, j int) { rest[i], rest[j] = rest[j], rest[i] })
 		budget := 800
-		if thorough || budget > len(rest) {
+		if thorough {
+			budget = 6000
+		}
+		if budget > len(rest) {
 			budget = len(rest)
 		}
 		pick := append(append([]clientreplay.CScript{}, small...), rest[:budget]...)
@@ -170,7 +180,10 @@ func run(c *core.Ctx) {
 		scripts := append([][]clientreplay.SStep{}, stt.Scripts...)
 		rng.Shuffle(len(scripts), func(i, j int) { scripts[i], scripts[j] = scripts[j], scripts[i] })
 		budget := 600
-		if thorough || budget > len(scripts) {
+		if thorough {
+			budget = 5000
+		}
+		if budget > len(scripts) {
 			budget = len(scripts)
 		}
 		for _, s := range scripts[:budget] {
@@ -181,12 +194,12 @@ func run(c *core.Ctx) {
 	rw.Add(2)
 	go func() {
 		defer rw.Done()
-		core.ParallelFor(len(cjobs), 192, func(i int) { clientreplay.RunCJob(c, ct, cjobs[i], &st) })
-		c.Note(fmt.Sprintf("wall: client replay done after %.1fs", time.Since(t0).Seconds()))
+		core.ParallelFor(len(cjobs), envInt("G07_CPAR", 192), func(i int) { clientreplay.RunCJob(c, ct, cjobs[i], &st) })
+		c.Note(fmt.Sprintf("wall: client replay done after %.1fs (sum of script times %.0fs, slowest %.1fs %s)", time.Since(t0).Seconds(), st.ClientSeconds, st.SlowestSeconds, st.Slowest))
 	}()
 	go func() {
 		defer rw.Done()
-		core.ParallelFor(len(sjobs), 64, func(i int) { clientreplay.RunSJob(c, stt, sjobs[i], &st) })
+		core.ParallelFor(len(sjobs), envInt("G07_SPAR", 64), func(i int) { clientreplay.RunSJob(c, stt, sjobs[i], &st) })
 		c.Note(fmt.Sprintf("wall: server replay done after %.1fs", time.Since(t0).Seconds()))
 	}()
 	rw.Wait()
@@ -230,8 +243,16 @@ func run(c *core.Ctx) {
 		c.Broken("G07 replay is vacuous: handshakes=%d reads=%d timeouts=%d panics=%d cancels=%d ka=%d routes=%d",
 			st.Handshakes, st.Reads, st.TimeoutEnded, st.Panics, st.Cancels, st.KARuns, st.RouteRuns)
 	}
-	c.Set("exhaustive", thorough)
-	c.Set("rule", "behaviours = (client) every sequence of up to 3 public calls -- Connect / ConnectAndAuthenticate[WithConfig] / Close / a blocked read -- on each route (direct, shared port, CCB), with and without a Security config, against a peer that is switched before each call to refuse, stall the dial, accept and FIN, accept and stay silent, answer garbage, serve or reject the handshake, with a context that is live, already cancelled or cancelled during the call; (server) every sequence of up to 4 environment steps on up to 2 connections -- dial, a raw command whose handler succeeds / fails / panics / blocks / keeps the connection / is not registered, a half-sent DC_AUTHENTICATE, releasing a blocked handler, closing the listener from outside, a temporary Accept error -- ending with the cancellation of Serve's context (at rest or racing with the last step); (tables) all 55 keep-alive configurations x 3 paths read back with getsockopt and all 18 address classes; behaviours with the same script form its set of admissible outcomes, printed by TLC from Gen_ClientConn with the intended design and with the deviations today's code is known to have; each script is one run of the REAL client against the scripted loopback peer / the REAL server.Serve against loopback clients; quick replays every one-call client script plus a seeded sample of 800 and 600 server scripts, thorough all; non-trivial = at least two calls / four steps / an explicit keep-alive configuration / a non-empty address")
+	c.Set("exhaustive", false)
+	c.Set("rule", "behaviours = (client) every sequence of up to 3 public calls -- Connect / ConnectAndAuthenticate[WithConfig] / Close / a blocked read -- on each route (direct, shared port, CCB), with and without a Security config, against a peer that is switched before each call to refuse, stall the dial, accept and FIN, accept and stay silent, answer garbage, serve or reject the handshake, with a context that is live, already cancelled or cancelled during the call; (server) every sequence of up to 4 environment steps on up to 2 connections -- dial, a raw command whose handler succeeds / fails / panics / blocks / keeps the connection / is not registered, a half-sent DC_AUTHENTICATE, releasing a blocked handler, closing the listener from outside, a temporary Accept error -- ending with the cancellation of Serve's context (at rest or racing with the last step); (tables) all 55 keep-alive configurations x 3 paths read back with getsockopt and all 18 address classes; behaviours with the same script form its set of admissible outcomes, printed by TLC from Gen_ClientConn with the intended design and with the deviations today's code is known to have; each script is one run of the REAL client against the scripted loopback peer / the REAL server.Serve against loopback clients; quick replays every one-call client script plus a seeded sample of 800 and 600 server scripts, thorough 6000 and 5000 (the tables completely, 4 concrete members per row); non-trivial = at least two calls / four steps / an explicit keep-alive configuration / a non-empty address")
 }
 
 type jsonRaw = json.RawMessage
+
+// envInt: development aid (parallelism experiments); the registered commands do not set it
+func envInt(name string, def int) int {
+	if v, err := strconv.Atoi(os.Getenv(name)); err == nil && v > 0 {
+		return v
+	}
+	return def
+}
